@@ -8,6 +8,7 @@ CONSTANTS
   AllowQueryX = FALSE
   AllowSweep = FALSE
   AllowDeclare = FALSE
+  AllowInfer = FALSE
   CopyModes = {"copy","deepcopy","replace","from_dao"}
   UnregisteredModes = {}
   Hist = TRUE
